@@ -236,20 +236,20 @@ theorem insert_split_gap (t : ITier Int) (hwf : t.WF) (s d : Int) (hd : 0 < d) (
       rcases hyp with rfl | rfl <;> (simp only; omega)
 
 /-- **inverse**: for `stretch` and `split`, erasing the inserted region with shrinking restores the original
-label-at-every-time function and the original span.  (`NoClose` of the intermediate tier is the separation
-hypothesis of C07.) -/
+label-at-every-time function and the original span.  No hypothesis about the intermediate tier: `t1` is whatever
+`insertSpace` returned. -/
 theorem insert_erase_inverse (t : ITier Int) (hwf : t.WF) (s d : Int) (hd : 0 < d) (hlo : t.lo ≤ s) (hhi : s ≤ t.hi)
     (mode : SpaceMode) (hmode : mode = .stretch ∨ mode = .split)
-    (t1 : ITier Int) (h1 : t.insertSpace s d mode = .ok t1) (hn : NoClose t1.es) :
+    (t1 : ITier Int) (h1 : t.insertSpace s d mode = .ok t1) :
     ∃ t2, t1.eraseRegion s (s + d) .truncate true = .ok t2 ∧ t2.WF ∧ t2.lo = t.lo ∧ t2.hi = t.hi ∧
       ∀ x, labelAt t2.es x = labelAt t.es x := by
   obtain ⟨t1', e1, w1, _, es1, lo1, hi1⟩ := insert_spec t hwf s d hd hlo mode (by rcases hmode with rfl | rfl <;> simp)
   rw [h1] at e1; cases e1
   obtain ⟨u, t2, hu, e2, w2, _, lo2, hi2, _, _⟩ :=
-    C07.erase_shrink t1 w1 hn s (s + d) (by omega) (by rw [lo1]; exact hlo) (by rw [hi1]; omega) .truncate (by decide)
+    C07.erase_shrink t1 w1 s (s + d) (by omega) (by rw [lo1]; exact hlo) (by rw [hi1]; omega) .truncate (by decide)
   refine ⟨t2, e2, w2, by rw [lo2, lo1], by rw [hi2, hi1]; omega, ?_⟩
   intro x
-  rw [C07.erase_shrink_labelAt t1 w1 hn s (s + d) (by omega) (by rw [lo1]; exact hlo) (by rw [hi1]; omega) t2 e2 x]
+  rw [C07.erase_shrink_labelAt t1 w1 s (s + d) (by omega) (by rw [lo1]; exact hlo) (by rw [hi1]; omega) t2 e2 x]
   by_cases hx : x < s
   · simp only [hx, if_true]
     rw [es1, insert_labelAt_outside t hwf s d hd mode hmode x (Or.inl hx)]
